@@ -195,12 +195,12 @@ class GenericSystemRegistry(
 
         factor, units = self.get_root_units(input_units, check_nonmult)
 
-        if not system:
-            return factor, units
-
         # This will not be necessary after integration with the registry
         # as it has a UnitsContainer intermediate
         units = to_units_container(units, self)
+
+        if not system:
+            return factor, units
 
         destination_units = self.UnitsContainer()
 
